@@ -219,7 +219,7 @@ theorem third_eccentricity_sq_inverse (hf : f < 1) :
 example : (-1 / 100 : ℝ) < 1 ∧ (1 / 298 : ℝ) < 1 := by constructor <;> norm_num
 
 /-- `FlatteningToSecondEccentricitySq ∘ SecondEccentricitySqToFlattening = id` for e′² > −1 -/
-theorem second_eccentricity_sq_inverse' (ep2 : ℝ) (h : -1 < ep2) :
+theorem second_eccentricity_sq_inverse_rev (ep2 : ℝ) (h : -1 < ep2) :
     flatteningToSecondEccentricitySq (secondEccentricitySqToFlattening ep2) = ep2 := by
   unfold secondEccentricitySqToFlattening flatteningToSecondEccentricitySq RealLike.sq
   simp only [lit_real, sqrt_real]; push_cast
@@ -235,7 +235,7 @@ theorem second_eccentricity_sq_inverse' (ep2 : ℝ) (h : -1 < ep2) :
   rw [h1, he]; field_simp; ring
 
 /-- `FlatteningToThirdEccentricitySq ∘ ThirdEccentricitySqToFlattening = id` for −1 < e″² < 1 -/
-theorem third_eccentricity_sq_inverse' (t : ℝ) (h1 : -1 < t) (h2 : t < 1) :
+theorem third_eccentricity_sq_inverse_rev (t : ℝ) (h1 : -1 < t) (h2 : t < 1) :
     flatteningToThirdEccentricitySq (thirdEccentricitySqToFlattening t) = t := by
   unfold thirdEccentricitySqToFlattening flatteningToThirdEccentricitySq RealLike.sq
   simp only [lit_real, sqrt_real]; push_cast
